@@ -57,39 +57,41 @@ func declaredLengths(fn *ssa.Function) []ssa.Value {
 
 // retained: the slice value is kept as decoded content (stored, returned, cloned, appended,
 // converted to string) rather than handed to a nested decoder or re-sliced.
-func retained(v ssa.Value, d int) bool {
+func retained(v ssa.Value, d int) bool { return len(retainedAt(v, d)) > 0 }
+
+// retainedAt: the instructions that keep the slice value.
+func retainedAt(v ssa.Value, d int) []ssa.Instruction {
 	if d > 3 || v.Referrers() == nil {
-		return false
+		return nil
 	}
+	var out []ssa.Instruction
 	for _, ref := range *v.Referrers() {
 		switch x := ref.(type) {
 		case *ssa.Store:
 			if x.Val == v {
 				if _, _, _, isField := fieldOfAddr(x.Addr); isField {
-					return true
+					out = append(out, x)
 				}
 			}
 		case *ssa.Return:
-			return true
+			out = append(out, x)
 		case *ssa.Call:
 			n := calleeName(&x.Call)
 			if n == "bytes.Clone" || strings.HasPrefix(n, "slices.Clone") {
-				return true
+				out = append(out, x)
 			}
 			if n == "builtin:append" && len(x.Call.Args) == 2 && x.Call.Args[1] == v {
-				return true
+				out = append(out, x)
 			}
 		case *ssa.Convert:
 			if bt, ok := x.Type().Underlying().(*types.Basic); ok && bt.Info()&types.IsString != 0 {
-				return true
+				out = append(out, x)
 			}
 		case *ssa.ChangeType:
-			if retained(x, d+1) {
-				return true
-			}
+			out = append(out, retainedAt(x, d+1)...)
 		}
 	}
-	return false
+	return out
 }
 
 // ruleDeclaredLengths (C18): an open-ended slice that is kept as field content in a decoder with
@@ -117,20 +119,29 @@ func ruleDeclaredLengths(c *Ctx, r *Report) {
 				if _, isBytes := sl.Type().Underlying().(*types.Slice); !isBytes {
 					continue
 				}
-				if !retained(sl, 0) {
+				keeps := retainedAt(sl, 0)
+				if len(keeps) == 0 {
 					continue
 				}
 				nChecked++
 				r.Sites++
-				facts := append([]cons{}, a.blockFacts(sl.Block())...)
-				facts = append(facts, a.inv...)
 				remaining := a.lenOf(sl.X, 0).add(a.linOf(sl.Low, 0), -1)
-				exact := false
-				for _, d := range decl {
-					l := a.linOf(d, 0)
-					if a.prove(facts, remaining.add(l, -1), 0) && a.prove(facts, l.add(remaining, -1), 0) {
-						exact = true
-						break
+				// where the tail is kept (not where it is cut: the length may be compared with the
+				// declared one in between) it is exactly as long as a declared length
+				exact := true
+				for _, keep := range keeps {
+					facts := append([]cons{}, a.blockFacts(keep.Block())...)
+					facts = append(facts, a.inv...)
+					here := false
+					for _, d := range decl {
+						l := a.linOf(d, 0)
+						if a.prove(facts, remaining.add(l, -1), 0) && a.prove(facts, l.add(remaining, -1), 0) {
+							here = true
+							break
+						}
+					}
+					if !here {
+						exact = false
 					}
 				}
 				key := short(fn) + ":" + siteShape(sl)
@@ -777,9 +788,76 @@ func ruleUnifiedHeaderSize(c *Ctx, r *Report) {
 // belief that it fits), the checks in force must actually imply that the narrowing is lossless:
 // 0 <= x <= max of the field, proved by the linear-inequality engine with loop invariants. A check
 // that bounds the wrong sum lets a length wrap, and the decoder rejects (or mis-frames) what the
-// encoder produced. Narrowings of quantities the function never compares with anything are
-// listed as information only: their bound is the caller's business and not decided here.
+// encoder produced. A narrowing of a quantity the function never compares with anything must be
+// listed in spec/reviewed_narrowings.json with the place its bound comes from (an earlier loop over
+// the same elements, a helper, the only caller, a deliberate truncation); otherwise the encoder
+// frames a wrapped length and reports success.
 var lenOfFieldRe = regexp.MustCompile(`len\(p0\.(\w+)\)\)*$`)
+
+// callersBoundLen: at every call site of fn (closed world) the first argument is a slice whose
+// length the caller has compared with a constant no larger than bound, the call being unreachable
+// when the length exceeds that constant. Returns what is missing, or "".
+func (c *Ctx) callersBoundLen(fn *ssa.Function, bound int64) string {
+	sites, closed := c.staticCallers(fn)
+	if !closed && !token.IsExported(fn.Name()) {
+		return "its callers are not all known"
+	}
+	if len(sites) == 0 {
+		sites = c.CallsToName(short(fn))
+	}
+	for _, s := range sites {
+		call, ok := s.Call.(*ssa.Call)
+		if !ok || len(call.Call.Args) == 0 || !inModule(s.Fn) {
+			continue
+		}
+		arg := call.Call.Args[0]
+		// a literal of fixed length
+		if sl, isSl := arg.(*ssa.Slice); isSl {
+			if al, isAl := sl.X.(*ssa.Alloc); isAl {
+				if ln, okL := fixedLen(al); okL && ln <= bound {
+					continue
+				}
+			}
+		}
+		same := func(v ssa.Value) bool {
+			if v == arg {
+				return true
+			}
+			o1, f1, b1, ok1 := fieldLoad(v)
+			o2, f2, b2, ok2 := fieldLoad(arg)
+			return ok1 && ok2 && o1 == o2 && f1 == f2 && sameValue(b1, b2)
+		}
+		matched := 0
+		w := &Walk{Fn: s.Fn, Assume: func(v ssa.Value) (Val, bool) {
+			bo, okB := v.(*ssa.BinOp)
+			if !okB {
+				return unknown, false
+			}
+			isLen := func(x ssa.Value) bool {
+				cl, okC := stripConv(x).(*ssa.Call)
+				return okC && calleeName(&cl.Call) == "builtin:len" && same(cl.Call.Args[0])
+			}
+			if isLen(bo.X) {
+				if k, isK := constInt(bo.Y); isK && k <= bound {
+					switch bo.Op { // the length exceeds k
+					case token.GTR, token.GEQ, token.NEQ:
+						matched++
+						return vBool(true), true
+					case token.LSS, token.LEQ, token.EQL:
+						matched++
+						return vBool(false), true
+					}
+				}
+			}
+			return unknown, false
+		}}
+		w.FromEntry()
+		if matched == 0 || w.Reached[call] {
+			return short(s.Fn) + " calls it (" + c.ipos(call) + ") without having refused a list longer than " + fmt.Sprint(bound)
+		}
+	}
+	return ""
+}
 
 func ruleLengthNarrowing(c *Ctx, r *Report) {
 	const rule = "length-narrowing"
@@ -804,6 +882,26 @@ func ruleLengthNarrowing(c *Ctx, r *Report) {
 	}
 	if len(wasProved) == 0 {
 		r.Unk(rule, "baseline", "", "spec/narrowing_baseline.json missing or empty")
+	}
+	reviewedNarrow := map[string]string{}
+	callerBound := map[string]int64{}
+	usedReviewed := map[string]bool{}
+	if b, err := os.ReadFile(filepath.Join(c.VerifDir, "spec", "reviewed_narrowings.json")); err == nil {
+		var t struct {
+			Sites []struct {
+				Key         string `json:"key"`
+				Reason      string `json:"reason"`
+				CallerBound int64  `json:"caller_bound"`
+			} `json:"sites"`
+		}
+		if json.Unmarshal(b, &t) == nil {
+			for _, e := range t.Sites {
+				reviewedNarrow[e.Key] = e.Reason
+				if e.CallerBound > 0 {
+					callerBound[e.Key] = e.CallerBound
+				}
+			}
+		}
 	}
 	for _, fn := range c.Fns {
 		if fn.Pkg == nil || len(fn.Blocks) == 0 {
@@ -842,6 +940,23 @@ func ruleLengthNarrowing(c *Ctx, r *Report) {
 			if fieldKey != "" {
 				unboundedSites = append(unboundedSites, unboundedSite{fieldKey, key, c.ipos(s.ins)})
 			}
+			// a length the function narrows without any check of its own: either the reviewed
+			// table says where the bound comes from (an earlier loop over the same elements, a
+			// helper, the caller, a deliberate truncation), or the encoder frames a wrapped length
+			if why, ok := reviewedNarrow[key]; ok {
+				usedReviewed[key] = true
+				// "the caller bounds it": then every call site must be unreachable once the length
+				// of the argument exceeds the stated bound
+				if bound, has := callerBound[key]; has {
+					if miss := c.callersBoundLen(fn, bound); miss != "" {
+						r.Bad(rule, key, c.ipos(s.ins), "the reviewed judgement rests on the callers bounding the length ("+why+"), but "+miss)
+						continue
+					}
+				}
+				r.OKTrivial(rule, key, c.ipos(s.ins), "reviewed: "+why)
+			} else {
+				r.Bad(rule, key, c.ipos(s.ins), fmt.Sprintf("the encoder narrows a length to the %s-bit field of its encoding without anything that bounds it: a value that does not fit is framed with a wrapped length, the encoder reports success, and the decoder refuses - or mis-splits - what it produced (the encoded value does not decode to itself)", strings.TrimPrefix(s.what, "narrow")))
+			}
 		}
 	}
 	// siblings agree: where one encoder bounds len(.F) before narrowing it to a wire field of some
@@ -854,7 +969,7 @@ func ruleLengthNarrowing(c *Ctx, r *Report) {
 	}
 	sort.Strings(uncheckedList)
 	r.Extra["unchecked_narrowings"] = uncheckedList
-	r.Note(rule, "unchecked-narrowings", "", fmt.Sprintf("%d narrowing(s) of quantities their function never bounds: not decided", unrel))
+	r.Extra["reviewed_narrowings_used"] = len(usedReviewed)
 	r.Floor(rule, n, 20)
 	_ = related
 }
@@ -1079,6 +1194,54 @@ func ruleDeclaredRegionReads(c *Ctx, r *Report) {
 		}
 		a := getAn(fn)
 		for li, l := range naturalLoops(fn) {
+			// the other way to stay inside: the region is cut out first, with its end taken from a
+			// declared length, and the loop consumes that slice (a read cannot pass its length)
+			for _, in := range l.header.Instrs {
+				phi, isPhi := in.(*ssa.Phi)
+				if !isPhi {
+					break
+				}
+				if !isByteSlice(phi.Type()) {
+					continue
+				}
+				for i, p := range l.header.Preds {
+					if l.blocks[p] {
+						continue
+					}
+					cut, isCut := phi.Edges[i].(*ssa.Slice)
+					if !isCut || cut.High == nil {
+						continue
+					}
+					fromDecl := false
+					var scanHi func(v ssa.Value, d int)
+					scanHi = func(v ssa.Value, d int) {
+						if d > 6 {
+							return
+						}
+						if isDecl[v] {
+							fromDecl = true
+						}
+						switch x := v.(type) {
+						case *ssa.BinOp:
+							scanHi(x.X, d+1)
+							scanHi(x.Y, d+1)
+						case *ssa.Convert:
+							scanHi(x.X, d+1)
+						}
+					}
+					scanHi(cut.High, 0)
+					consumed := false
+					for j, q := range l.header.Preds {
+						if l.blocks[q] && slicedFrom(phi.Edges[j], phi, 0) {
+							consumed = true
+						}
+					}
+					if fromDecl && consumed {
+						n++
+						r.OKTrivial(rule, fmt.Sprintf("%s:loop%d:region-cut", short(fn), li+1), c.ipos(cut), "the loop consumes a slice that ends where the declared length says: no read in it can pass that end")
+					}
+				}
+			}
 			iff, ok := l.header.Instrs[len(l.header.Instrs)-1].(*ssa.If)
 			if !ok {
 				continue
